@@ -49,6 +49,12 @@ package templater
 // shell-quoted value - is not edited afterwards)
 //@   site (*Buffer).String#1 ghost rendered := result
 //@   ensures result.1 == nil ==> result.0 == rendered                                                           [C19]
+// (the one edit that IS made - the known finding above - is the removal of the engine's own "<no value>"; no other
+// text is taken out of, or changed in, what was rendered: line endings, spaces, quotes of a passed value arrive as given)
+//@   site strings.ReplaceAll#0 requires arg1 == "<no value>" && arg2 == ""                                        [C02,C10,C19]
+//@   nosite strings.Replace                                                                                     [C02,C10,C19]
+//@   nosite strings.TrimSpace                                                                                   [C02,C10,C19]
+//@   nosite strings.NewReplacer                                                                                 [C02,C10,C19]
 //@ func ReplaceVar
 //@   trusted
 //@   modifies github.com/go-task/task/v3/internal/templater.*
